@@ -693,6 +693,12 @@ Extra:\n{self.extra_map}
                     f"multisig input #{cnt} does not contain a script to evaluate"
                 )
 
+            if psbt_in.prev_tx is None and psbt_in.prev_out is None:
+                # nothing commits the script (and the amount) shown to the user to the coin being spent
+                raise SuspiciousTransaction(
+                    f"multisig input #{cnt} has neither a non-witness UTXO nor a witness UTXO to check its script against"
+                )
+
             # Be sure all xpubs are properly accounted for
             if len(hdpubkey_map) != len(psbt_in.named_pubs):
                 # TODO: doesn't handle case where the same xfp is >1 signers
